@@ -700,7 +700,9 @@ fn kind_banks_hits(r: &mut Rng, pattern: u8, n: usize, run: Option<u32>) -> (u32
                 }
             }
             let noise = *r.pick(&[0.0, 0.0, 3.0, 30.0]);
-            (run, fwd::banks_of_run(&sig, run, r.next_u32(), if exact { 0.0 } else { noise }, r.next_u64(), 30000))
+            // half of the events are taken with the ADC data suppression on: wires of unequal length
+            let supp = if r.chance(1, 2) { Some(r.next_u64()) } else { None };
+            (run, fwd::banks_of_run_supp(&sig, run, r.next_u32(), if exact { 0.0 } else { noise }, r.next_u64(), 30000, supp))
 }
 
 pub fn kind_name(k: &Kind) -> &'static str {
